@@ -1,6 +1,9 @@
 package main
 
 import (
+	"go/types"
+	"strconv"
+	"os"
 	"fmt"
 	"go/token"
 	"strings"
@@ -125,10 +128,18 @@ func checkC03(c *Ctx, r *Report) {
 				continue
 			}
 			if len(mq) == 0 {
+				if os.Getenv("BISQ_DEBUG") != "" {
+					fmt.Println("C03-R1 local:", key, strings.Join(o.Events, " ; "), "=>", o.Ret)
+				}
 				if !retIsError(o) {
-					// allowed only for early refusals that answer the client (e.g. SUBACK invalid topic id)
-					if !hasEventPrefix(o, "sn:") {
+					// allowed only for early refusals that answer the client (e.g. SUBACK invalid topic id): exactly one
+					// reply, and it carries a non-accepted return code. An acknowledgement the broker never sent
+					// (UNSUBACK, PINGRESP, SUBACK accepted) is not a translation.
+					sn := eventsWithPrefix(o, "sn:")
+					if len(sn) == 0 {
 						okc, detail = false, "the packet is swallowed: nothing forwarded, nothing answered, no error: "+strings.Join(o.Events, " ; ")
+					} else if len(sn) != 1 || !c.isRefusalEvent(sn[0]) {
+						okc, detail = false, "the packet is not forwarded to the broker but answered by the gateway itself with something else than a refusal (an acknowledgement the broker never sent): "+strings.Join(o.Events, " ; ")
 					}
 				}
 				continue
@@ -623,4 +634,34 @@ func (c *Ctx) titDomain(tname string) []int64 {
 		}
 	}
 	return out
+}
+
+// isRefusalEvent: the sent-packet event "sn:*packets1.X{NewX(a,b,c)}" is a reply whose constructor has a
+// ReturnCode parameter and the argument at that position is a constant other than 0 (accepted).
+func (c *Ctx) isRefusalEvent(ev string) bool {
+	i := strings.Index(ev, "{New")
+	j := strings.LastIndex(ev, ")}")
+	if i < 0 || j < i {
+		return false
+	}
+	call := ev[i+1 : j]
+	k := strings.Index(call, "(")
+	if k < 0 {
+		return false
+	}
+	fn := c.SSA[pkPackets1].Func(call[:k])
+	if fn == nil {
+		return false
+	}
+	args := strings.Split(call[k+1:], ",")
+	ps := fn.Signature.Params()
+	for n := 0; n < ps.Len() && n < len(args); n++ {
+		if nt, ok := ps.At(n).Type().(*types.Named); ok && nt.Obj().Name() == "ReturnCode" {
+			a := strings.TrimSpace(args[n])
+			if v, err := strconv.ParseInt(a, 10, 64); err == nil && v != 0 {
+				return true
+			}
+		}
+	}
+	return false
 }
